@@ -306,40 +306,16 @@ class World(EventDispatcher):
     def _clear_dead_entities(self):
         """Finalize deletion of any entities marked as dead.
 
-        In the interest of performance, this method duplicates code from
-        the :meth:`delete_entity` method. If that method is changed,
-        those changes should be duplicated here as well.
+        The set of dead entities is reset beforehand, so that a failure
+        (eg. a raising ``on_remove`` callback, or a ``KeyError`` for an
+        entity that never existed) cannot make every following call
+        fail as well.
         """
-        for entity in self._dead_entities:
+        dead_entities, self._dead_entities = self._dead_entities, set()
 
-            for component_type, component in self._entities[entity].items():
-                self._components[component_type].discard(entity)
-
-                if not self._components[component_type]:
-                    del self._components[component_type]
-
-                # Event handling
-                if (hasattr(component, '__events__')
-                        and ON_REMOVE_EVENT_NAME in component.__events__):
-                    # Code replication
-                    # If dispatching is enabled, call on_remove directly
-                    # to gain performance. Otherwise an event is dispatched
-                    if (ON_REMOVE_EVENT_NAME in component.__events__
-                            and self._dispatch_enabled):
-                        getattr(component,
-                                component.__events__[ON_REMOVE_EVENT_NAME])(
-                                    entity, self)
-                    # on_add exists but dispatching is disabled
-                    elif not self._dispatch_enabled:
-                        self.dispatch(ON_SINGLE_DISPATCH_EVENT_NAME,
-                                      ON_REMOVE_EVENT_NAME,
-                                      component, entity, self)
-
-                    self.remove_handler(component)
-
-            del self._entities[entity]
-
-        self._dead_entities.clear()
+        for entity in dead_entities:
+            for component_type in tuple(self._entities[entity]):
+                self.remove_component(entity, component_type)
 
     def remove_component(self, entity: Hashable, component_type: type[C]):
         """Remove a component from an entity, if the entity owns one.
@@ -368,9 +344,11 @@ class World(EventDispatcher):
                     removed = self._entities[entity][subtype]
                     del self._entities[entity][subtype]
 
-                # Free dict entry for an entity if empty
+                # Free dict entry for an entity if empty. An entity that
+                # is gone is not awaiting deletion anymore
                 if not self._entities[entity]:
                     del self._entities[entity]
+                    self._dead_entities.discard(entity)
 
                 if removed is not None:
                     # No need to check if it is an handler, just check
